@@ -778,7 +778,9 @@ impl JobServerHandle {
             if got_token {
                 return Ok(());
             }
-            backoff *= 2;
+            // Only min(1s, backoff) is ever used: stop doubling there, or a
+            // long wait overflows the Duration and panics.
+            backoff = cmp::min(Duration::from_secs(1), backoff * 2);
             {
                 let has_token = {
                     let state = self.state.borrow();
